@@ -11,8 +11,8 @@ from vlib import Family, qlit, zlit, zlist
 
 LEVEL = 'proof'
 RULE = ('GridSamplingOp: random integer-valued real/complex tensors (2-D up to 5x6, 3-D up to 3x4x5), dyadic grids in [-1.75,1.75] '
-        '(on pixels, on the border, beyond, nearest ties), bilinear/nearest x zeros/border x align_corners, grid batch 1..3, '
-        'x batch equal or broadcast, 0-2 extra channel dims; forward and adjoint against the Q model (vm_compute); bicubic/reflection '
+        '(on pixels, on the border, beyond, nearest ties), bilinear/nearest (2-D, 3-D) and bicubic (2-D) x zeros/border x align_corners, grid batch 1..3, '
+        'x batch equal or broadcast, 0-2 extra channel dims; forward and adjoint against the Q model (vm_compute); reflection padding '
         'only through implementation-level oracles (identity grid, re/im alike, adjointness, linearity). '
         'SliceProjectionOp: dense rows of the sparse matrix for identity / exact axis-permuting (120/180 degree) / Pythagorean '
         'rotations, integer and half-integer shifts, rectangular profiles of width 1..8 and SliceSmoothedRectangular(w,0) against the '
@@ -106,6 +106,10 @@ def gen_grid(rng, tier):
     for _ in range(reps):
         for dim, mode, pad, ac, cplx in combos:
             cases.append(_mk_grid_case(rng, dim, mode, pad, ac, cplx))
+    # bicubic (2-D only) against the cubic-convolution model; appended last so that the cases above keep their random stream
+    for _ in range(2 if tier == 'quick' else 40):
+        for pad, ac, cplx in itertools.product(PADS, [False, True], [False, True]):
+            cases.append(_mk_grid_case(rng, 2, 'bicubic', pad, ac, cplx))
     return cases
 
 
@@ -166,8 +170,11 @@ def _coq_grid_list(c):
 
 def coq_grid(c):
     dim = c['dim']
-    cfg = f'{MODES[c["mode"]]} {PADS[c["pad"]]} {vlib.boollit(c["ac"])} ' + ' '.join(zlit(s) for s in c['shape'])
+    cfg = f'{MODES.get(c["mode"], "Bilinear")} {PADS[c["pad"]]} {vlib.boollit(c["ac"])} ' + ' '.join(zlit(s) for s in c['shape'])
     fwd, adj = (f'(fwd{dim} {cfg})', f'(adj{dim} {cfg})')
+    if c['mode'] == 'bicubic':  # 2-D only; own tap model (index-bounded neighbours)
+        cfgb = f'{PADS[c["pad"]]} {vlib.boollit(c["ac"])} ' + ' '.join(zlit(s) for s in c['shape'])
+        fwd, adj = f'(fwd2_bicubic {cfgb})', f'(adj2_bicubic {cfgb})'
     sp, nout, C = prod(c['shape']), prod(c['out']), prod(c['chans'])
     bs = [max(a, b) for a, b in zip(c['xb'], c['gb'])]
     lay = f'{zlist(c["xb"])} {zlist(c["gb"])} {zlit(C)}'
@@ -414,6 +421,8 @@ def _profile_coq(pj):
         return f'(rect {qlit(F(*pj["h"]))})'
     if pj['kind'] == 'smoothed0':
         return f'(smoothed_rect0 {qlit(F(*pj["fwhm"]))})'
+    if pj['kind'] == 'arect':
+        return f'(arect {qlit(F(*pj["lo"]))} {qlit(F(*pj["hi"]))})'
     raise ValueError(pj['kind'])
 
 
@@ -487,6 +496,10 @@ def _rand_shape(rng, cubic=False):
 def _rect_profile(rng, tilted):
     if tilted:  # thresholds that no exact distance (denominator 5^a 13^b 2^c) can hit
         return {'kind': 'rect', 'h': [rng.choice([2, 4, 5, 7, 8, 10, 11]), 3]}
+    if rng.random() < 0.2:  # asymmetric rectangle (both ends of the support count for the width)
+        a, b = rng.randint(1, 2), rng.randint(3, 8)
+        lo, hi = (-b, a) if rng.random() < 0.5 else (-a, b)
+        return {'kind': 'arect', 'lo': [lo, 2], 'hi': [hi, 2]}
     return rng.choice([{'kind': 'rect', 'h': [rng.randint(1, 8), 2]}, {'kind': 'rect', 'h': [rng.randint(1, 8), 2]},
                        {'kind': 'smoothed0', 'fwhm': [rng.randint(1, 8), 1]}, {'kind': 'smoothed0', 'fwhm': [rng.randint(2, 12), 2]}])
 
@@ -513,6 +526,11 @@ def gen_slice(rng, tier):
     cases.append({'shape': [9, 4, 4], 'cls': 'identity',
                   'items': [{'M': _mat_json(PERMS[0] if _is_exact_perm(PERMS[0]) else PERM_EXACT[0]), 'shift': [0, 1], 'prof': {'kind': 'rect', 'h': [5, 2]}}]})
     cases[0]['items'][0]['M'] = _mat_json([[1, 0, 0], [0, 1, 0], [0, 0, 1]])
+    # asymmetric rectangles under the identity and an exact axis permutation (width = max(|ceil lo|, |floor hi|) + 1)
+    cases.append({'shape': [9, 4, 4], 'cls': 'identity', 'items': [{'M': _mat_json([[1, 0, 0], [0, 1, 0], [0, 0, 1]]), 'shift': [1, 2],
+                                                                    'prof': {'kind': 'arect', 'lo': [-7, 2], 'hi': [1, 2]}}]})
+    cases.append({'shape': [5, 5, 5], 'cls': 'perm_exact', 'items': [{'M': _mat_json([[0, 0, 1], [1, 0, 0], [0, 1, 0]]), 'shift': [0, 1],
+                                                                      'prof': {'kind': 'arect', 'lo': [-1, 2], 'hi': [5, 2]}}]})
     n = 14 if tier == 'quick' else 220
     for i in range(n):
         cls = ['identity', 'perm_exact', 'pyth', 'perm_exact', 'pyth'][i % 5]
@@ -856,9 +874,9 @@ def extra_checks(ctx):
 
 FAMILIES = [
     Family('slice_matrix', gen_slice, impl_slice, coq_slice, PRE_SLICE, cmp_slice, oracle_slice,
-           nontrivial=lambda c: True, descr=_descr_slice, shard=2, theorem='C20_slice_nonneg, C20_slice_duplicates, C20_slice_rowsum(_inside), C20_slice_identity_is_weighted_slicing_partial, C20_slice_rect_taps_partial, C20_find_width_rect_partial'),
+           nontrivial=lambda c: True, descr=_descr_slice, shard=2, theorem='C20_slice_nonneg, C20_slice_duplicates, C20_slice_rowsum(_inside), C20_slice_axis_aligned_is_weighted_slicing, C20_slice_rect_taps(_built), C20_find_width_rect, C20_find_width_arect'),
     Family('slice_axis_aligned', gen_axis, impl_axis, None, '', None, oracle_axis, descr=_descr_slice,
-           theorem='C20_slice_identity_is_weighted_slicing (implementation-level reference in python)'),
+           theorem='C20_slice_axis_aligned_is_weighted_slicing, C20_slice_rect_taps (implementation-level reference in python)'),
     Family('slice_irrational_profiles', gen_gauss, impl_gauss, None, '', None, oracle_gauss, descr=_descr_slice,
            theorem='(float twin of Model/SliceProj.v)'),
     Family('grid_sampling', gen_grid, impl_grid, coq_grid, PRE_GRID, cmp_grid, oracle_grid, nontrivial=_nontrivial_grid,
